@@ -667,7 +667,8 @@ func main() {
 	ml := "/registry/masterleases/10.0.0.1"
 	memScripts := [][]tplanEv{
 		{{0, "create", e1}, {0, "create", pa}, {700, "dump", ""}, {2600, "dump", ""}},
-		// updated one second after creation: memkv's timer of the create removes the fresh index
+		// updated one second after creation: the timers of the create must leave the update's index and version alone
+		// (former finding C17-F2: memkv's timer deleted whatever the key held when it fired)
 		{{0, "create", e1}, {1000, "update", e1}, {1300, "dump", ""}, {2500, "dump", ""}, {3600, "dump", ""}},
 		{{0, "create", p1}, {0, "create", ex}, {700, "dump", ""}, {2600, "dump", ""}},
 		{{0, "create", e1}, {300, "delete", e1}, {1000, "create", e1}, {1300, "dump", ""}, {2500, "dump", ""}, {3600, "dump", ""}},
